@@ -55,7 +55,20 @@ def build():
     }
 
 
+def write_findings():
+    from lib import core
+    doc = ("Genuine defects of txpipe/pallas found by the checks (generated union of known_findings.d/*.json). "
+           "status=known: recorded, not repaired; printed as KNOWN-FINDING on every run and not counted as a violation; "
+           "matched by (property, stream, key_regex on the oracle's stable violation key), so a different violation of the "
+           "same property is still reported. status=fixed: repaired by a `fix:` commit in /repo; suppresses nothing. "
+           "Never modified at run time.")
+    with open(os.path.join(ROOT, "known_findings.json"), "w") as f:
+        json.dump({"_doc": doc, "findings": core.all_findings()}, f, indent=1)
+        f.write("\n")
+
+
 def write():
+    write_findings()
     m = build()
     with open(os.path.join(ROOT, "MANIFEST.json"), "w") as f:
         json.dump(m, f, indent=1)
